@@ -117,6 +117,12 @@ def make_cfgs(ctx):
             if all(sum(a * b for a, b in zip(x, t)) % PDEN != 0 for t in HALF_TRANSLATIONS):
                 probes.add(x)
         Cm = sym_pd_matrix(rng)
+        if entry in ("tric", "p4"):
+            # low symmetry: the raw dielectric tensor is a general matrix (eps_ij != eps_ji survives the point-group
+            # average); its symmetric part stays the positive definite one drawn above
+            a1, a2, a3 = (rng.choice((-2, -1, 1, 2)) for _ in range(3))
+            Cm = [[Cm[0][0], Cm[0][1] + a1, Cm[0][2] + a2], [Cm[1][0] - a1, Cm[1][1], Cm[1][2] + a3],
+                  [Cm[2][0] - a2, Cm[2][1] - a3, Cm[2][2]]]
         if U != I3:
             # tensors drawn in the catalogue setting and expressed in the sheared basis (Zh' = U^-T Zh U^T,
             # Cc' = U^-T Cc U^-1): the physical tensors are as moderate as in every other configuration
@@ -143,7 +149,7 @@ def cfg_tla(c):
 
 
 REQ_INVS = ["TypeOK", "ReqBornInvariant", "ReqEpsInvariant", "ReqBornASR", "ReqProjection", "ReqCentringConsistent",
-            "ReqHomogeneous", "ReqSymmetric", "ReqAcoustic", "ReqZeroBorn", "ReqCovariant", "ReqBasisCovariant", "ReqWangGamma",
+            "ReqHomogeneous", "ReqSymmetric", "ReqAcoustic", "ReqZeroBorn", "ReqCovariant", "ReqBasisCovariant", "ReqEpsSymmetricPartOnly", "ReqWangGamma",
             "ReqWangVanishesAtCommensurate", "ReqPhaseClassFunction"]
 PRE_INVS = ["PreDenominatorPositive", "PreTransGroupComplete", "PreShortestStable"]
 
